@@ -79,6 +79,7 @@ type c03Res struct {
 	PorcOps     int              `json:"porcupine_ops"`
 	Overlaps    int              `json:"overlapping_op_pairs"`
 	Stats       int              `json:"stats_calls"`
+	SizeRejects int              `json:"size_rejects"`
 	Yields      map[string]int64 `json:"yields,omitempty"`
 	Hang        string           `json:"hang,omitempty"`
 	History     []c03Body        `json:"history,omitempty"` // kept only on violation
@@ -86,7 +87,7 @@ type c03Res struct {
 
 var errPlanned = errors.New("planned body error")
 
-const nRegKeys = 3
+const nRegKeys = 8
 
 func u64(b []byte) int64 {
 	if len(b) < 8 {
@@ -118,7 +119,15 @@ func c03Round(a *c03Args, round int) (res c03Res) {
 	tr := iotrace.New(path)
 	tr.EnableYields(a.Seed*977 + int64(round))
 	defer iotrace.Uninstall()
-	db, err := exec.Open(path, gen.OpenOpts{Freelist: a.Freelist, PageSize: 4096})
+	// every third round runs against a size limit the growing list reaches: from then on commits are rejected at
+	// arbitrary allocation points (data pages, the freelist page) by Update, Batch and manual Commit alike, and
+	// everybody else must keep making progress (no writer lock left behind)
+	limited := round%3 == 2
+	oo := gen.OpenOpts{Freelist: a.Freelist, PageSize: 4096}
+	if limited {
+		oo.MaxSize = 24 * 4096
+	}
+	db, err := exec.Open(path, oo)
 	if err != nil {
 		res.Viol = append(res.Viol, "open: "+err.Error())
 		return
@@ -144,7 +153,7 @@ func c03Round(a *c03Args, round int) (res c03Res) {
 		mu.Unlock()
 	}
 	var inWriter, maxIn int32
-	var clock, uidSeq, progress, statsCalls atomic.Int64
+	var clock, uidSeq, progress, statsCalls, sizeRejects atomic.Int64
 	stamp := func() int64 { return clock.Add(1) }
 
 	// the write body: read X and len(L), write X+1 and L+uid, write a register; then act as planned
@@ -276,8 +285,11 @@ func c03Round(a *c03Args, round int) (res c03Res) {
 						}
 						return
 					}
-					if plan == "commit" {
+					if plan == "commit" && !(limited && errors.Is(err, berrors.ErrMaxSizeReached)) {
 						fail("body %d (%s) planned to commit failed: %v", rec.UID, via, err)
+					}
+					if errors.Is(err, berrors.ErrMaxSizeReached) {
+						sizeRejects.Add(1)
 					}
 				}
 				if err == nil && plan != "commit" {
@@ -392,6 +404,7 @@ wait:
 	}
 	res.MaxInWriter = maxIn
 	res.Stats = int(statsCalls.Load())
+	res.SizeRejects = int(sizeRejects.Load())
 	res.Yields = tr.YieldStats()
 	res.Viol = viol
 	c03Offline(path, a, &res, bodies, reads)
@@ -607,7 +620,7 @@ func c03Offline(path string, a *c03Args, res *c03Res, bodies []c03Body, reads []
 		Equal: func(a, b any) bool { return a.(int64) == b.(int64) },
 	}
 	res.PorcOps = len(ops)
-	switch r, _ := porcupine.CheckOperationsVerbose(model, ops, 2*time.Minute); r {
+	switch r, _ := porcupine.CheckOperationsVerbose(model, ops, 6*time.Minute); r {
 	case porcupine.Ok:
 		res.Porcupine = "ok"
 	case porcupine.Illegal:
@@ -679,6 +692,7 @@ func runC03(c *Ctx) int {
 			tot.PorcOps += r.PorcOps
 			tot.Overlaps += r.Overlaps
 			tot.Stats += r.Stats
+			tot.SizeRejects += r.SizeRejects
 			for k, v := range r.Failed {
 				tot.Failed[k] += v
 			}
@@ -720,23 +734,24 @@ func runC03(c *Ctx) int {
 		c.Inconclusive(fmt.Sprintf("porcupine timed out on %d histories", inconclusivePorc))
 	}
 	cov := map[string]any{
-		"evaluations":                 tot.Bodies + tot.Reads,
-		"rounds":                      roundsRun,
-		"distinct_nontrivial":         len(sit) + min(roundsRun, tot.Overlaps/1000),
-		"rule":                        "evaluations = write bodies + snapshot reads judged; each round: 2/4/8/16/32 goroutines mix Update, Begin..Commit/Rollback, Batch, View, Stats (and in a quarter of the processes a Close racing with everything) on a counter X, a list L and 3 registers; a seeded 30% of the write bodies return an error, panic or roll back; seeded delays at the verifYield points; every body bumps an in-writer gauge (must never exceed 1), reads X, writes X+1 and L+uid; snapshots assert X == len(L). Offline on the recorded history: committed bodies saw 0..n-1 exactly once, id order == commit order, distinct committed ids consecutive, real-time order, a reader's id determines the counter it sees, final state == serial replay with no effect of a failed body; the register history is checked for linearizability with porcupine (independent of ids). Run under the race detector (any report is a violation); lost wake-ups by a quiescence detector (all workers parked, no progress in successive snapshots). A round is non-trivial if operations overlapped in time; distinct_nontrivial counts distinct (goroutines, overlap, shared-batch, failure-mix) situations plus 1 per 1000 overlapping operation pairs (capped by rounds).",
-		"samples":                     samples,
-		"write_bodies":                tot.Bodies,
-		"committed_bodies":            tot.Committed,
-		"failed_bodies_by_plan":       tot.Failed,
-		"snapshot_reads":              tot.Reads,
-		"distinct_committed_txids":    tot.TxIDs,
-		"bodies_sharing_a_batch_tx":   tot.BatchShared,
-		"porcupine_operations":        tot.PorcOps,
-		"overlapping_operation_pairs": tot.Overlaps,
-		"stats_calls":                 tot.Stats,
-		"max_bodies_in_writer":        tot.MaxInWriter,
-		"yield_points_passed":         tot.Yields,
-		"race_reports":                races,
+		"evaluations":                   tot.Bodies + tot.Reads,
+		"rounds":                        roundsRun,
+		"distinct_nontrivial":           len(sit) + min(roundsRun, tot.Overlaps/1000),
+		"rule":                          "evaluations = write bodies + snapshot reads judged; each round: 2/4/8/16/32 goroutines mix Update, Begin..Commit/Rollback, Batch, View, Stats (and in a quarter of the processes a Close racing with everything) on a counter X, a list L and 8 registers; a seeded 30% of the write bodies return an error, panic or roll back; seeded delays at the verifYield points; every body bumps an in-writer gauge (must never exceed 1), reads X, writes X+1 and L+uid; snapshots assert X == len(L). Offline on the recorded history: committed bodies saw 0..n-1 exactly once, id order == commit order, distinct committed ids consecutive, real-time order, a reader's id determines the counter it sees, final state == serial replay with no effect of a failed body; the register history is checked for linearizability with porcupine (independent of ids). Run under the race detector (any report is a violation); lost wake-ups by a quiescence detector (all workers parked, no progress in successive snapshots). A round is non-trivial if operations overlapped in time; distinct_nontrivial counts distinct (goroutines, overlap, shared-batch, failure-mix) situations plus 1 per 1000 overlapping operation pairs (capped by rounds).",
+		"samples":                       samples,
+		"write_bodies":                  tot.Bodies,
+		"committed_bodies":              tot.Committed,
+		"failed_bodies_by_plan":         tot.Failed,
+		"snapshot_reads":                tot.Reads,
+		"distinct_committed_txids":      tot.TxIDs,
+		"bodies_sharing_a_batch_tx":     tot.BatchShared,
+		"porcupine_operations":          tot.PorcOps,
+		"overlapping_operation_pairs":   tot.Overlaps,
+		"stats_calls":                   tot.Stats,
+		"bodies_rejected_by_size_limit": tot.SizeRejects,
+		"max_bodies_in_writer":          tot.MaxInWriter,
+		"yield_points_passed":           tot.Yields,
+		"race_reports":                  races,
 	}
 	if tot.Overlaps == 0 {
 		c.Inconclusive("no two operations overlapped in time")
